@@ -284,7 +284,53 @@ def fp_job_replay(params, inputs):
     return (-0.5 <= d <= 0.5), f'displacement {d!r} for a={a!r} b={b!r}'
 
 
-REPLAYS = dict(wrap_job=wrap_job_replay, length_job=length_job_replay, fp_job=fp_job_replay)
+def after_correction_job(params):
+    """Positions / displacements / cumulative displacements / distances of a trajectory are the same before and after
+    `apply_drift_correction()` has been called on it (the correction returns a new object)."""
+    from harness import c13
+    T, A = params['T'], 4
+    M = pool.lattice_matrices()['tric']
+
+    def body():
+        import gemdat.trajectory as gt
+        import pymatgen.core.trajectory as pt
+        with Patches() as p:
+            p.np(gt, pt)
+            lo, hi = F(-1, 2), F(1, 2)
+            d = S([[[0 if t == 0 else sym_real(f'd_{t}_{a}_{c}', lo, hi, lo_strict=True, hi_strict=True) for c in range(3)]
+                    for a in range(A)] for t in range(T)])
+            b = S([[sym_real(f'b_{a}_{c}', 0, 1, hi_strict=True) for c in range(3)] for a in range(A)])
+            L = c13._lemma_recompute(gt, 'Species', d, b, M, {})
+            tr = c13._mk(gt, 'Species', d.copy(), b.copy(), M)
+            cum0 = tr.cumulative_displacements.copy()
+            tr.apply_drift_correction(fixed_species='Si')
+            D = tr.displacements
+            cum1 = tr.cumulative_displacements
+            for idx in np.ndindex(D.shape):
+                prove_isolated('steps of the source unchanged after a drift correction was computed from it', D[idx] == d[idx],
+                               given=L[idx[2]], timeout_ms=60000)
+                prove_isolated('cumulative displacements of the source unchanged', cum1[idx] == cum0[idx], given=L[idx[2]], timeout_ms=60000)
+            sample(dict(T=T))
+
+    return symbolic_job(params, body, after_correction_replay)
+
+
+def after_correction_replay(params, inputs):
+    import gemdat.trajectory as gt
+    from harness import c13
+    T, A = params['T'], 4
+    M = pool.lattice_matrices()['tric']
+    d = np.array([[[0.0 if t == 0 else float(inputs[f'd_{t}_{a}_{c}']) for c in range(3)] for a in range(A)] for t in range(T)])
+    b = np.array([[float(inputs[f'b_{a}_{c}']) for c in range(3)] for a in range(A)])
+    tr = c13._mk(gt, 'Species', d.copy(), b.copy(), M)
+    pos0, dist0 = tr.positions.copy(), tr.distances_from_base_position().copy()
+    tr.apply_drift_correction(fixed_species='Si')
+    dp = np.abs(tr.positions - pos0)
+    ok = np.abs(tr.displacements - d).max() < 1e-9 and np.minimum(dp, 1 - dp).max() < 1e-9 and np.abs(tr.distances_from_base_position() - dist0).max() < 1e-9
+    return ok, f'source trajectory differs after apply_drift_correction; d={d.tolist()}'
+
+
+REPLAYS = dict(wrap_job=wrap_job_replay, length_job=length_job_replay, fp_job=fp_job_replay, after_correction_job=after_correction_replay)
 
 
 def jobs(tier, seed):
@@ -303,4 +349,6 @@ def jobs(tier, seed):
         js.append(dict(name=f'length_{lat}', fn='length_job', params=dict(T=3, A=1, lattice=lat)))
     for k in fps:
         js.append(dict(name=f'fp_{k}', fn='fp_job', params=dict(kind=k)))
+    for T in ((2,) if tier == 'quick' else (2, 3)):
+        js.append(dict(name=f'source_after_drift_correction_T{T}', fn='after_correction_job', params=dict(T=T)))
     return js
